@@ -35,6 +35,7 @@ INJECT = {
     "verif_num.rs": ("src/repr/num_to_repr/verif_num.rs", "src/repr/num_to_repr.rs", "#[cfg(kani)]\nmod verif_num;\n", "repr::num_to_repr::verif_num"),
     "verif_lib.rs": ("src/verif_lib.rs", "src/lib.rs", "#[cfg(kani)]\nmod verif_lib;\n", "verif_lib"),
     "verif_conv.rs": ("src/verif_conv.rs", "src/lib.rs", "#[cfg(kani)]\nmod verif_conv;\n", "verif_conv"),
+    "verif_e2e.rs": ("src/verif_e2e.rs", "src/lib.rs", "#[cfg(kani)]\nmod verif_e2e;\n", "verif_e2e"),
     "verif_feat.rs": ("src/verif_feat.rs", "src/lib.rs", "#[cfg(kani)]\nmod verif_feat;\n", "verif_feat"),
     "verif_conc.rs": ("src/repr/verif_conc.rs", "src/repr.rs", "#[cfg(kani)]\nmod verif_conc;\n", "repr::verif_conc"),
 }
@@ -124,7 +125,7 @@ def obligations_in_sources():
         if not fn.endswith(".rs"):
             continue
         src = open(os.path.join(KANI_DIR, fn)).read()
-        for m in re.finditer(r'obl!\(\s*(?:[^"]|"(?!,))*?,\s*"([\w\.\-]+)"\s*,\s*"([\w,]+)"\s*,?\s*\)', src, re.S):
+        for m in re.finditer(r's?obl!\(\s*(?:[^"]|"(?!,))*?,\s*"([\w\.\-]+)"\s*,\s*"([\w,]+)"\s*,?\s*\)', src, re.S):
             out.setdefault(m.group(1), set()).update(m.group(2).split(","))
     return out
 
@@ -356,7 +357,7 @@ def run_harnesses(scratch, hs, logdir, jobs=None):
     return results
 
 
-OBL_RE = re.compile(r"^OBL:([\w\.\-]+)\|([\w,]+)$")
+OBL_RE = re.compile(r"^OBL:([\w\.\-]+)\|([\w,]+)(\|S)?$")
 
 
 def classify(h, res, prop):
@@ -381,7 +382,8 @@ def classify(h, res, prop):
             if prop is not None and prop not in props:
                 # contract clause of another property: still a defect signal but reported there
                 continue
-            rec = {"name": name, "harness": h["name"], "status": c["status"], "kind": "contract", "where": c["loc"]}
+            rec = {"name": name, "harness": h["name"], "status": c["status"], "kind": "contract", "where": c["loc"],
+                   "structural": bool(m.group(3))}
         else:
             if "VERIF-INTERNAL" in c["desc"]:
                 if c["status"] == "FAILURE":
